@@ -323,12 +323,46 @@ theorem diffAt_reg (g : Nat) (old : Option Entity) (c : Option (Option (Kind × 
       | none => rfl
       | some p => simp only; split_ifs <;> rfl
 
-/-! ### `handleEvent`, seen at one name -/
+/-! ### the consumer without the namespace bookkeeping (proof-internal abstraction)
+
+`CState0`, `delStep0 / creStep0 / updStep0 / handleEvent0` are the consumer loops with the namespace
+object ignored. `handleEvent_sim` below shows that the model's loops (which create the namespace on
+demand, refuse to update / delete without it, and run `_cleanSpace` after every delete) do exactly
+the same to the maps and to the log, *because* the namespace exists iff one of its maps is not
+empty (`NsOK`). -/
+
+structure CState0 where
+  store : Map (Nat × Name) Entity
+  log : List Call
+
+def delStep0 (P : Params) (c : CState0) (x : Name × Entity) : CState0 :=
+  let key := (P.slot x.2.kind, x.1)
+  match c.store.get key with
+  | none => c
+  | some old => { store := c.store.del key, log := c.log ++ [callClose P x.1 old] }
+
+def creStep0 (P : Params) (c : CState0) (x : Name × Entity) : CState0 :=
+  let key := (P.slot x.2.kind, x.1)
+  if P.createChecks && (c.store.get key).isSome then c
+  else { store := c.store.set key x.2, log := c.log ++ [callInit P x.1 x.2] }
+
+def updStep0 (P : Params) (c : CState0) (x : Name × Entity) : CState0 :=
+  let key := (P.slot x.2.kind, x.1)
+  match c.store.get key with
+  | none => c
+  | some prev => { store := c.store.set key x.2, log := c.log ++ [callInherit P x.1 x.2 prev] }
+
+def handleEvent0 (P : Params) (t : Nat) (c : CState0) (ev : Event) : CState0 :=
+  let c1 := (P.order t 0 ev.del).foldl (delStep0 P) c
+  let c2 := (P.order t 1 ev.cre).foldl (creStep0 P) c1
+  (P.order t 2 ev.upd).foldl (updStep0 P) c2
+
+/-! ### `handleEvent0`, seen at one name -/
 
 /-- The consumer at one name: what each of its maps holds for the name, and the calls on it. -/
 abbrev CView := (Nat → Option Entity) × List Call
 
-def CState.at (c : CState) (n : Name) : CView :=
+def CState0.at (c : CState0) (n : Name) : CView :=
   (fun s => c.store.get (s, n), callsOf n c.log)
 
 def upd (st : Nat → Option Entity) (s : Nat) (v : Option Entity) : Nat → Option Entity :=
@@ -362,9 +396,9 @@ theorem callsOf_single_eq (n : Name) (c : Call) (h : c.name = n) : callsOf n [c]
 private theorem key_ne {s s' : Nat} {n m : Name} (h : m ≠ n) : ¬ ((s', n) = (s, m)) := by
   intro e; injection e with _ e2; exact h e2.symm
 
-theorem delStep_ne (P : Params) (n : Name) (c : CState) (m : Name) (e : Entity) (h : m ≠ n) :
-    (delStep P c (m, e)).at n = c.at n := by
-  unfold delStep CState.at
+theorem delStep_ne (P : Params) (n : Name) (c : CState0) (m : Name) (e : Entity) (h : m ≠ n) :
+    (delStep0 P c (m, e)).at n = c.at n := by
+  unfold delStep0 CState0.at
   simp only
   cases c.store.get (P.slot e.kind, m) with
   | none => rfl
@@ -372,18 +406,18 @@ theorem delStep_ne (P : Params) (n : Name) (c : CState) (m : Name) (e : Entity) 
     simp only [callsOf_append, callsOf_single_ne n m (callClose P m old) rfl h, List.append_nil,
       Map.get_del, key_ne h, if_false]
 
-theorem creStep_ne (P : Params) (n : Name) (c : CState) (m : Name) (e : Entity) (h : m ≠ n) :
-    (creStep P c (m, e)).at n = c.at n := by
-  unfold creStep CState.at
+theorem creStep_ne (P : Params) (n : Name) (c : CState0) (m : Name) (e : Entity) (h : m ≠ n) :
+    (creStep0 P c (m, e)).at n = c.at n := by
+  unfold creStep0 CState0.at
   simp only
   split_ifs
   · rfl
   · simp only [callsOf_append, callsOf_single_ne n m (callInit P m e) rfl h, List.append_nil,
       Map.get_set, key_ne h, if_false]
 
-theorem updStep_ne (P : Params) (n : Name) (c : CState) (m : Name) (e : Entity) (h : m ≠ n) :
-    (updStep P c (m, e)).at n = c.at n := by
-  unfold updStep CState.at
+theorem updStep_ne (P : Params) (n : Name) (c : CState0) (m : Name) (e : Entity) (h : m ≠ n) :
+    (updStep0 P c (m, e)).at n = c.at n := by
+  unfold updStep0 CState0.at
   simp only
   cases c.store.get (P.slot e.kind, m) with
   | none => rfl
@@ -396,9 +430,9 @@ private theorem key_eq_iff {s s' : Nat} {n : Name} : ((s', n) = (s, n)) ↔ s' =
   · intro e; injection e
   · intro e; rw [e]
 
-theorem delStep_eq (P : Params) (n : Name) (c : CState) (e : Entity) :
-    (delStep P c (n, e)).at n = delF P n e (c.at n) := by
-  unfold delStep CState.at delF
+theorem delStep_eq (P : Params) (n : Name) (c : CState0) (e : Entity) :
+    (delStep0 P c (n, e)).at n = delF P n e (c.at n) := by
+  unfold delStep0 CState0.at delF
   simp only
   cases c.store.get (P.slot e.kind, n) with
   | none => rfl
@@ -406,18 +440,18 @@ theorem delStep_eq (P : Params) (n : Name) (c : CState) (e : Entity) :
     simp only [callsOf_append, callsOf_single_eq n (callClose P n old) rfl, Map.get_del, key_eq_iff]
     rfl
 
-theorem creStep_eq (P : Params) (n : Name) (c : CState) (e : Entity) :
-    (creStep P c (n, e)).at n = creF P n e (c.at n) := by
-  unfold creStep CState.at creF
+theorem creStep_eq (P : Params) (n : Name) (c : CState0) (e : Entity) :
+    (creStep0 P c (n, e)).at n = creF P n e (c.at n) := by
+  unfold creStep0 CState0.at creF
   simp only
   split_ifs
   · rfl
   · simp only [callsOf_append, callsOf_single_eq n (callInit P n e) rfl, Map.get_set, key_eq_iff]
     rfl
 
-theorem updStep_eq (P : Params) (n : Name) (c : CState) (e : Entity) :
-    (updStep P c (n, e)).at n = updF P n e (c.at n) := by
-  unfold updStep CState.at updF
+theorem updStep_eq (P : Params) (n : Name) (c : CState0) (e : Entity) :
+    (updStep0 P c (n, e)).at n = updF P n e (c.at n) := by
+  unfold updStep0 CState0.at updF
   simp only
   cases c.store.get (P.slot e.kind, n) with
   | none => rfl
@@ -434,32 +468,207 @@ def optApply {β π : Type} (f : β → π → π) : Option β → π → π
 
 theorem optApply_none {β π : Type} (f : β → π → π) (v : π) : optApply f none v = v := rfl
 
-theorem handleEvent_at (P : Params) (ok : P.OrderOK) (t : Nat) (c : CState) (ev : Event)
+theorem handleEvent0_at (P : Params) (ok : P.OrderOK) (t : Nat) (c : CState0) (ev : Event)
     (wd : ev.del.WF) (wc : ev.cre.WF) (wu : ev.upd.WF) (n : Name) :
-    (handleEvent P t c ev).at n =
+    (handleEvent0 P t c ev).at n =
       optApply (updF P n) (ev.upd.get n) (optApply (creF P n) (ev.cre.get n)
         (optApply (delF P n) (ev.del.get n) (c.at n))) := by
-  unfold handleEvent
+  unfold handleEvent0
   simp only
-  rw [foldl_proj (updStep P) (fun c => c.at n) n (updF P n) (fun st m b h => updStep_ne P n st m b h)
+  rw [foldl_proj (updStep0 P) (fun c => c.at n) n (updF P n) (fun st m b h => updStep_ne P n st m b h)
       (fun st b => updStep_eq P n st b) _ (Map.wf_perm (ok t 2 ev.upd) wu),
-    foldl_proj (creStep P) (fun c => c.at n) n (creF P n) (fun st m b h => creStep_ne P n st m b h)
+    foldl_proj (creStep0 P) (fun c => c.at n) n (creF P n) (fun st m b h => creStep_ne P n st m b h)
       (fun st b => creStep_eq P n st b) _ (Map.wf_perm (ok t 1 ev.cre) wc),
-    foldl_proj (delStep P) (fun c => c.at n) n (delF P n) (fun st m b h => delStep_ne P n st m b h)
+    foldl_proj (delStep0 P) (fun c => c.at n) n (delF P n) (fun st m b h => delStep_ne P n st m b h)
       (fun st b => delStep_eq P n st b) _ (Map.wf_perm (ok t 0 ev.del) wd),
     Map.get_perm (ok t 2 ev.upd) wu, Map.get_perm (ok t 1 ev.cre) wc, Map.get_perm (ok t 0 ev.del) wd]
   cases ev.upd.get n <;> cases ev.cre.get n <;> cases ev.del.get n <;> rfl
 
-theorem handleEvent_empty (P : Params) (ok : P.OrderOK) (t : Nat) (c : CState) (ev : Event)
+theorem handleEvent0_empty (P : Params) (ok : P.OrderOK) (t : Nat) (c : CState0) (ev : Event)
+    (h : ev.isEmpty = true) : handleEvent0 P t c ev = c := by
+  obtain ⟨d, cr, u⟩ := ev
+  simp only [Event.isEmpty, Bool.and_eq_true, List.isEmpty_iff] at h
+  obtain ⟨⟨h1, h2⟩, h3⟩ := h
+  subst h1; subst h2; subst h3
+  unfold handleEvent0
+  have e0 := List.Perm.eq_nil (ok t 0 [])
+  have e1 := List.Perm.eq_nil (ok t 1 [])
+  have e2 := List.Perm.eq_nil (ok t 2 [])
+  simp [e0, e1, e2]
+
+/-! ### namespace bookkeeping: the model's loops simulate the abstract ones -/
+
+def CState.toOld (c : CState) : CState0 := ⟨c.store, c.log⟩
+
+def CState.at (c : CState) (n : Name) : CView := c.toOld.at n
+
+/-- The hypotheses on the static parameters: every `range` oracle permutes, and a namespaced
+consumer has exactly the two maps `_cleanSpace` probes (slot 0 = pipelines, slot 1 = trafficGates). -/
+structure Params.WF (P : Params) : Prop where
+  order : P.OrderOK
+  slots : P.namespaced = true → ∀ k, P.slot k = 0 ∨ P.slot k = 1
+
+/-- Namespace invariant of a namespaced consumer: the namespace object exists iff one of its maps
+holds something, and every stored key is in one of the two maps. -/
+def NsOK (P : Params) (c : CState) : Prop :=
+  P.namespaced = true → c.ns = !c.store.isEmpty ∧ ∀ e ∈ c.store, e.1.1 = 0 ∨ e.1.1 = 1
+
+theorem cleanSpace_spec (c : CState) (hs : ∀ e ∈ c.store, e.1.1 = 0 ∨ e.1.1 = 1) :
+    (cleanSpace c).toOld = c.toOld ∧ (cleanSpace c).store = c.store ∧
+      (cleanSpace c).ns = (if c.store.isEmpty then false else c.ns) := by
+  unfold cleanSpace
+  cases hst : c.store with
+  | nil => simp [CState.toOld, hst]
+  | cons e r =>
+    have he := hs e (by rw [hst]; exact List.mem_cons_self)
+    rcases he with h0 | h1
+    · simp [List.filter_cons, h0, hst, CState.toOld]
+    · simp [List.filter_cons, h1, hst, CState.toOld]
+
+theorem mem_del {κ α : Type} [DecidableEq κ] {m : Map κ α} {k : κ} {e : κ × α} (h : e ∈ m.del k) : e ∈ m :=
+  (List.mem_filter.mp h).1
+
+theorem mem_set {κ α : Type} [DecidableEq κ] {m : Map κ α} {k : κ} {v : α} {e : κ × α}
+    (h : e ∈ m.set k v) : e ∈ m ∨ e = (k, v) := by
+  unfold Map.set at h
+  rcases List.mem_append.mp h with h1 | h1
+  · exact Or.inl (mem_del h1)
+  · exact Or.inr (by simpa using h1)
+
+theorem set_nonempty {κ α : Type} [DecidableEq κ] (m : Map κ α) (k : κ) (v : α) :
+    (m.set k v).isEmpty = false := by
+  unfold Map.set
+  cases h : m.del k <;> simp
+
+theorem delStep_sim (P : Params) (ok : P.WF) (c : CState) (x : Name × Entity) (j : NsOK P c) :
+    NsOK P (delStep P c x) ∧ (delStep P c x).toOld = delStep0 P c.toOld x := by
+  unfold delStep delStep0
+  by_cases hn : P.namespaced = true
+  · obtain ⟨jn, js⟩ := j hn
+    by_cases hns : c.ns = true
+    · rw [if_neg (show ¬ ((P.namespaced && !c.ns) = true) by simp [hns])]
+      simp only [hn, if_true, CState.toOld]
+      cases hg : c.store.get (P.slot x.2.kind, x.1) with
+      | none => exact ⟨fun _ => ⟨jn, js⟩, rfl⟩
+      | some old =>
+        simp only
+        have hs' : ∀ e ∈ (⟨c.store.del (P.slot x.2.kind, x.1), c.log ++ [callClose P x.1 old], c.ns⟩ : CState).store,
+            e.1.1 = 0 ∨ e.1.1 = 1 := fun e he => js e (mem_del he)
+        obtain ⟨h1, h2, h3⟩ := cleanSpace_spec _ hs'
+        refine ⟨fun _ => ⟨?_, ?_⟩, ?_⟩
+        · rw [h3, h2]
+          simp only
+          cases hd : (c.store.del (P.slot x.2.kind, x.1)).isEmpty <;> simp [hns]
+        · rw [h2]; exact hs'
+        · simpa [CState.toOld] using h1
+    · have hf : c.ns = false := by simpa using hns
+      have hemp : c.store = [] := by
+        rw [hf] at jn
+        have : c.store.isEmpty = true := by simpa using jn.symm
+        simpa using this
+      simp only [hn, hf, Bool.not_false, Bool.and_self, if_true, CState.toOld, hemp, Map.get_nil]
+      exact ⟨fun _ => ⟨by simp [hf, hemp], by simp [hemp]⟩, by first | rfl | trivial⟩
+  · have hf : P.namespaced = false := by simpa using hn
+    simp only [hf, Bool.false_and, Bool.false_eq_true, if_false, CState.toOld]
+    cases hg : c.store.get (P.slot x.2.kind, x.1) with
+    | none => exact ⟨fun h => absurd h hn, rfl⟩
+    | some old => exact ⟨fun h => absurd h hn, rfl⟩
+
+theorem creStep_sim (P : Params) (ok : P.WF) (c : CState) (x : Name × Entity) (j : NsOK P c) :
+    NsOK P (creStep P c x) ∧ (creStep P c x).toOld = creStep0 P c.toOld x := by
+  by_cases h : (P.createChecks && (c.store.get (P.slot x.2.kind, x.1)).isSome) = true
+  · have e1 : creStep P c x = c := by unfold creStep; simp only [h, ↓reduceIte]
+    have e2 : creStep0 P c.toOld x = c.toOld := by
+      unfold creStep0; simp only [CState.toOld, h, ↓reduceIte]
+    rw [e1, e2]; exact ⟨j, rfl⟩
+  · have e1 : creStep P c x = ⟨c.store.set (P.slot x.2.kind, x.1) x.2, c.log ++ [callInit P x.1 x.2],
+        if P.namespaced then true else c.ns⟩ := by
+      unfold creStep; simp only [h, Bool.false_eq_true, ↓reduceIte]
+    have e2 : creStep0 P c.toOld x =
+        ⟨c.store.set (P.slot x.2.kind, x.1) x.2, c.log ++ [callInit P x.1 x.2]⟩ := by
+      unfold creStep0; simp only [CState.toOld, h, Bool.false_eq_true, ↓reduceIte]
+    rw [e1, e2]
+    refine ⟨fun hn => ?_, rfl⟩
+    obtain ⟨_, js⟩ := j hn
+    simp only [hn, ↓reduceIte]
+    refine ⟨by rw [set_nonempty]; rfl, fun e he => ?_⟩
+    rcases mem_set he with h1 | h1
+    · exact js e h1
+    · rw [h1]; exact ok.slots hn x.2.kind
+
+theorem updStep_sim (P : Params) (ok : P.WF) (c : CState) (x : Name × Entity) (j : NsOK P c) :
+    NsOK P (updStep P c x) ∧ (updStep P c x).toOld = updStep0 P c.toOld x := by
+  unfold updStep updStep0
+  by_cases hn : P.namespaced = true
+  · obtain ⟨jn, js⟩ := j hn
+    by_cases hns : c.ns = true
+    · rw [if_neg (show ¬ ((P.namespaced && !c.ns) = true) by simp [hns])]
+      simp only [CState.toOld]
+      cases hg : c.store.get (P.slot x.2.kind, x.1) with
+      | none => exact ⟨fun _ => ⟨jn, js⟩, rfl⟩
+      | some prev =>
+        refine ⟨fun _ => ⟨by simp only; rw [set_nonempty, hns]; rfl, fun e he => ?_⟩, rfl⟩
+        rcases mem_set he with h1 | h1
+        · exact js e h1
+        · rw [h1]; exact ok.slots hn x.2.kind
+    · have hf : c.ns = false := by simpa using hns
+      have hemp : c.store = [] := by
+        rw [hf] at jn
+        have : c.store.isEmpty = true := by simpa using jn.symm
+        simpa using this
+      simp only [hn, hf, Bool.not_false, Bool.and_self, if_true, CState.toOld, hemp, Map.get_nil]
+      exact ⟨fun _ => ⟨by simp [hf, hemp], by simp [hemp]⟩, by first | rfl | trivial⟩
+  · have hf : P.namespaced = false := by simpa using hn
+    simp only [hf, Bool.false_and, Bool.false_eq_true, if_false, CState.toOld]
+    cases hg : c.store.get (P.slot x.2.kind, x.1) with
+    | none => exact ⟨fun h => absurd h hn, rfl⟩
+    | some old => exact ⟨fun h => absurd h hn, rfl⟩
+
+theorem foldl_sim {σ σ0 β : Type} (f : σ → β → σ) (f0 : σ0 → β → σ0) (π : σ → σ0) (J : σ → Prop)
+    (h : ∀ c x, J c → J (f c x) ∧ π (f c x) = f0 (π c) x) :
+    ∀ (l : List β) (c : σ), J c → J (l.foldl f c) ∧ π (l.foldl f c) = l.foldl f0 (π c) := by
+  intro l
+  induction l with
+  | nil => intro c j; exact ⟨j, rfl⟩
+  | cons x r ih =>
+    intro c j
+    obtain ⟨j1, e1⟩ := h c x j
+    obtain ⟨j2, e2⟩ := ih (f c x) j1
+    exact ⟨j2, by rw [List.foldl_cons, List.foldl_cons, e2, e1]⟩
+
+/-- `handleEvent` (with namespace bookkeeping) does to maps and log what `handleEvent0` does, and
+keeps the namespace invariant. -/
+theorem handleEvent_sim (P : Params) (ok : P.WF) (t : Nat) (c : CState) (ev : Event) (j : NsOK P c) :
+    NsOK P (handleEvent P t c ev) ∧ (handleEvent P t c ev).toOld = handleEvent0 P t c.toOld ev := by
+  unfold handleEvent handleEvent0
+  simp only
+  obtain ⟨j1, e1⟩ := foldl_sim (delStep P) (delStep0 P) CState.toOld (NsOK P)
+    (fun c x j => delStep_sim P ok c x j) (P.order t 0 ev.del) c j
+  obtain ⟨j2, e2⟩ := foldl_sim (creStep P) (creStep0 P) CState.toOld (NsOK P)
+    (fun c x j => creStep_sim P ok c x j) (P.order t 1 ev.cre) _ j1
+  obtain ⟨j3, e3⟩ := foldl_sim (updStep P) (updStep0 P) CState.toOld (NsOK P)
+    (fun c x j => updStep_sim P ok c x j) (P.order t 2 ev.upd) _ j2
+  exact ⟨j3, by rw [e3, e2, e1]⟩
+
+theorem handleEvent_at (P : Params) (ok : P.WF) (t : Nat) (c : CState) (ev : Event) (j : NsOK P c)
+    (wd : ev.del.WF) (wc : ev.cre.WF) (wu : ev.upd.WF) (n : Name) :
+    (handleEvent P t c ev).at n =
+      optApply (updF P n) (ev.upd.get n) (optApply (creF P n) (ev.cre.get n)
+        (optApply (delF P n) (ev.del.get n) (c.at n))) := by
+  unfold CState.at
+  rw [(handleEvent_sim P ok t c ev j).2]
+  exact handleEvent0_at P ok.order t c.toOld ev wd wc wu n
+
+theorem handleEvent_empty (P : Params) (ok : P.WF) (t : Nat) (c : CState) (ev : Event)
     (h : ev.isEmpty = true) : handleEvent P t c ev = c := by
   obtain ⟨d, cr, u⟩ := ev
   simp only [Event.isEmpty, Bool.and_eq_true, List.isEmpty_iff] at h
   obtain ⟨⟨h1, h2⟩, h3⟩ := h
   subst h1; subst h2; subst h3
   unfold handleEvent
-  have e0 := List.Perm.eq_nil (ok t 0 [])
-  have e1 := List.Perm.eq_nil (ok t 1 [])
-  have e2 := List.Perm.eq_nil (ok t 2 [])
+  have e0 := List.Perm.eq_nil (ok.order t 0 [])
+  have e1 := List.Perm.eq_nil (ok.order t 1 [])
+  have e2 := List.Perm.eq_nil (ok.order t 2 [])
   simp [e0, e1, e2]
 
 /-! ### one step of the system, seen at one name -/
@@ -583,6 +792,7 @@ theorem wordStep_self (P : Params) (n : Name) (v : Option Entity) : wordStep P n
 structure Inv (P : Params) (s : Sys) : Prop where
   wf : s.ents.WF
   store : ∀ n, (s.w.cons.at n).1 = slotView P (view P s.w.attached (s.ents.get n))
+  ns : NsOK P s.w.cons
 
 def Item.WF : Item → Prop
   | .snap cfg => cfg.WF
@@ -602,9 +812,10 @@ def nextReg (n : Name) (g : Nat) (r : Option Entity) : Item → Option Entity
   | .attach => r
 
 theorem inv_init (P : Params) : Inv P Sys.init :=
-  ⟨Map.wf_nil, fun n => by funext s; simp [Sys.init, CState.at, slotView, view]⟩
+  ⟨Map.wf_nil, fun n => by funext s; simp [Sys.init, CState.at, CState.toOld, CState0.at, slotView, view],
+    fun _ => ⟨by simp [Sys.init], by simp [Sys.init]⟩⟩
 
-theorem stepW_cons (P : Params) (ok : P.OrderOK) (t : Nat) (w : WState) (d : Diff) (h : w.attached = true) :
+theorem stepW_cons (P : Params) (ok : P.WF) (t : Nat) (w : WState) (d : Diff) (h : w.attached = true) :
     (stepW P t w d).cons = handleEvent P t w.cons (notify P w.wents d).2 ∧
       (stepW P t w d).attached = true := by
   unfold stepW
@@ -614,7 +825,7 @@ theorem stepW_cons (P : Params) (ok : P.OrderOK) (t : Nat) (w : WState) (d : Dif
   · simp only [he, if_true]; exact (handleEvent_empty P ok t w.cons _ he).symm
   · simp only [he]; rfl
 
-theorem step_at (P : Params) (ok : P.OrderOK) (s : Sys) (inv : Inv P s) (it : Item) (wf : it.WF)
+theorem step_at (P : Params) (ok : P.WF) (s : Sys) (inv : Inv P s) (it : Item) (wf : it.WF)
     (n : Name) :
     (step P s it).g = nextG s.g it ∧
     (step P s it).w.attached = nextAtt s.w.attached it ∧
@@ -644,7 +855,7 @@ theorem step_at (P : Params) (ok : P.OrderOK) (s : Sys) (inv : Inv P s) (it : It
         have hev : ∀ (m : Map Name Entity), m.WF →
             Map.get (m.filter (fun e => P.passes e.2)) n = (m.get n).filter P.passes :=
           fun m mwf => Map.get_filter_val mwf (fun e => P.passes e.2) n
-        rw [handleEvent_at P ok s.t s.w.cons _ (Map.wf_filter _ dwf.2.1) (Map.wf_filter _ dwf.2.2.1)
+        rw [handleEvent_at P ok s.t s.w.cons _ inv.ns (Map.wf_filter _ dwf.2.1) (Map.wf_filter _ dwf.2.2.1)
           (Map.wf_filter _ dwf.2.2.2) n]
         simp only [notify]
         rw [hev _ dwf.2.1, hev _ dwf.2.2.1, hev _ dwf.2.2.2, hv, hatt]
@@ -675,16 +886,35 @@ theorem step_at (P : Params) (ok : P.OrderOK) (s : Sys) (inv : Inv P s) (it : It
       · have hf : s.w.attached = false := by simpa using hatt
         unfold attachW
         simp only [hf, Bool.false_eq_true, if_false]
-        rw [handleEvent_at P ok s.t s.w.cons _ Map.wf_nil (Map.wf_filter _ inv.wf) Map.wf_nil n]
+        rw [handleEvent_at P ok s.t s.w.cons _ inv.ns Map.wf_nil (Map.wf_filter _ inv.wf) Map.wf_nil n]
         simp only [attachEvent, Map.get_nil, optApply_none]
         rw [Map.get_filter_val inv.wf (fun e => P.passes e.2) n, hv, hf]
         have := attach_at P n (s.ents.get n) (callsOf n s.w.cons.log)
         simp only [view] at this ⊢
         simpa using this
 
-theorem step_inv (P : Params) (ok : P.OrderOK) (s : Sys) (inv : Inv P s) (it : Item) (wf : it.WF) :
+theorem step_ns (P : Params) (ok : P.WF) (s : Sys) (inv : Inv P s) (it : Item) :
+    NsOK P (step P s it).w.cons := by
+  cases it with
+  | snap cfg =>
+    simp only [step]
+    unfold stepW
+    by_cases hatt : s.w.attached = true
+    · simp only [hatt, if_true]
+      split_ifs
+      · exact inv.ns
+      · exact (handleEvent_sim P ok s.t s.w.cons _ inv.ns).1
+    · simp only [hatt]; exact inv.ns
+  | attach =>
+    simp only [step]
+    unfold attachW
+    by_cases hatt : s.w.attached = true
+    · simp only [hatt, if_true]; exact inv.ns
+    · simp only [hatt]; exact (handleEvent_sim P ok s.t s.w.cons _ inv.ns).1
+
+theorem step_inv (P : Params) (ok : P.WF) (s : Sys) (inv : Inv P s) (it : Item) (wf : it.WF) :
     Inv P (step P s it) := by
-  refine ⟨(step_at P ok s inv it wf 0).2.2.1, fun n => ?_⟩
+  refine ⟨(step_at P ok s inv it wf 0).2.2.1, fun n => ?_, step_ns P ok s inv it⟩
   obtain ⟨_, h2, _, h4, h5⟩ := step_at P ok s inv it wf n
   rw [h5, h2, h4]
 
@@ -709,7 +939,7 @@ theorem specFinal_cons (n : Name) (g : Nat) (att : Bool) (r : Option Entity) (it
 
 /-- The central induction: from any state satisfying the invariant, the calls on `n` are the
 specification's word, the invariant is kept, and registry/attachment follow the specification. -/
-theorem run_spec (P : Params) (ok : P.OrderOK) (n : Name) : ∀ (h : List Item) (s : Sys), Inv P s → HistWF h →
+theorem run_spec (P : Params) (ok : P.WF) (n : Name) : ∀ (h : List Item) (s : Sys), Inv P s → HistWF h →
     callsOf n (run P s h).w.cons.log =
         callsOf n s.w.cons.log ++ specWord P n s.g s.w.attached (s.ents.get n) h ∧
       Inv P (run P s h) ∧
@@ -728,7 +958,7 @@ theorem run_spec (P : Params) (ok : P.OrderOK) (n : Name) : ∀ (h : List Item) 
         wordStep P n (view P s.w.attached (s.ents.get n))
           (view P (nextAtt s.w.attached it) (nextReg n s.g (s.ents.get n) it)) := by
       have := congrArg Prod.snd h5
-      simpa [CState.at] using this
+      simpa [CState.at, CState.toOld, CState0.at] using this
     rw [run_cons, specWord_cons, specFinal_cons, i1, hlog, h1, h2, h4, List.append_assoc]
     refine ⟨rfl, i2, ?_⟩
     rw [i3, h1, h2, h4]
@@ -989,7 +1219,7 @@ theorem step_winv (P : Params) (s : Sys) (inv : Inv P s) (winv : WInv P s) (it :
       rw [Map.get_filter_val inv.wf (fun e => P.passes e.2) n]
       simp [view]
 
-theorem run_winv (P : Params) (ok : P.OrderOK) : ∀ (h : List Item) (s : Sys), Inv P s → WInv P s →
+theorem run_winv (P : Params) (ok : P.WF) : ∀ (h : List Item) (s : Sys), Inv P s → WInv P s →
     HistWF h → WInv P (run P s h) := by
   intro h
   induction h with
